@@ -133,6 +133,7 @@ func (t *tsT) translateFunc(f *tsFunc) {
 		trFail(errs[0].Pos, "uses a declaration outside the prelude and the translated packages: %s", errs[0].Msg)
 	}
 	c := &tsCtx{t: t, fn: f, names: map[types.Object]string{}, used: map[string]bool{"fuel": true, "n": true}}
+	c.tsbBegin() // extra parameters: float operations, external functions, map iteration orders (trans_syntax_bayes.go)
 	sig := f.obj.Type().(*types.Signature)
 	if sig.Variadic() || sig.TypeParams() != nil || sig.RecvTypeParams() != nil {
 		trFail(f.decl.Pos(), "variadic and generic functions are outside the subset")
@@ -160,6 +161,7 @@ func (t *tsT) translateFunc(f *tsFunc) {
 			}
 		}
 	}
+	params = append(params, c.tsbParams()...)
 	results := sig.Results()
 	for i := 0; i < results.Len(); i++ {
 		if results.At(i).Name() != "" {
@@ -534,6 +536,9 @@ func (c *tsCtx) expr(e ast.Expr) string {
 			if _, ok := trUnparen(x.X).(*ast.CompositeLit); ok {
 				return c.expr(x.X) // &T{…}: the struct value
 			}
+			if s, ok := c.tsbAddrOf(x); ok {
+				return s
+			}
 			trFail(x.Pos(), "taking the address of %s is outside the subset", trSrc(x.X))
 		}
 		trFail(x.Pos(), "unary operator %s on %s is outside the subset", x.Op, c.typeOf(x.X))
@@ -578,6 +583,9 @@ func (c *tsCtx) expr(e ast.Expr) string {
 		c.leanType(c.typeOf(x.X), x.Pos())
 		return c.expr(x.X)
 	case *ast.IndexExpr:
+		if s, ok := c.tsbIndex(x); ok {
+			return s
+		}
 		return c.tspIndex(x)
 	}
 	trFail(e.Pos(), "expression %T is outside the subset", e)
@@ -611,6 +619,9 @@ func (c *tsCtx) ident(x *ast.Ident) string {
 }
 
 func (c *tsCtx) binary(x *ast.BinaryExpr) string {
+	if s, ok := c.tsbBinary(x); ok {
+		return s
+	}
 	switch x.Op {
 	case token.LAND, token.LOR:
 		a := c.expr(x.X)
@@ -865,6 +876,7 @@ func (c *tsCtx) appOf(ci tsCallInfo, x *ast.CallExpr) string {
 	if tf.alias {
 		args = append(args, c.aliasArg(tf.params[0].Type(), x.Pos()))
 	}
+	args = append(args, c.tsbCallExtras(tf, x)...)
 	name := c.t.qname(c.unit(), tf.unit, tf.leanName)
 	if len(args) == 0 {
 		return name
@@ -877,6 +889,9 @@ func (c *tsCtx) appOf(ci tsCallInfo, x *ast.CallExpr) string {
 func (c *tsCtx) checkAliasCall(ci tsCallInfo, x *ast.CallExpr) {}
 
 func (c *tsCtx) call(x *ast.CallExpr) string {
+	if s, ok := c.tsbCall(x); ok {
+		return s
+	}
 	// conversion T(e)
 	if tv, ok := c.info().Types[x.Fun]; ok && tv.IsType() {
 		from, to := c.typeOf(x.Args[0]), tv.Type
@@ -989,11 +1004,12 @@ func (c *tsCtx) builtin(name string, x *ast.CallExpr) string {
 		if !ok {
 			trFail(x.Pos(), "append to %s is outside the subset", c.typeOf(x.Args[0]))
 		}
+		first := c.exprAs(x.Args[0], c.typeOf(x.Args[0])) // Go evaluates the operands from left to right
 		var els []string
 		for _, a := range x.Args[1:] {
 			els = append(els, c.exprAs(a, st.Elem()))
 		}
-		return "(" + c.exprAs(x.Args[0], c.typeOf(x.Args[0])) + " ++ [" + strings.Join(els, ", ") + "])"
+		return "(" + first + " ++ [" + strings.Join(els, ", ") + "])"
 	}
 	trFail(x.Pos(), "builtin %s in expression position is outside the subset", name)
 	return ""
